@@ -17,6 +17,19 @@ def check(ctx):
             ctx.violation("caller-stranded", "SendActiveMessage(k=%s) had not returned 4 s after its time-out" % e.get("k"), {"kind": "live", "event": e})
     conns = lc.split_conns(events)
     lc.trace_conn(ctx, conns, "c06")
+    # the handlers whose reply depends on the body, hammered by all connections at once
+    tr3 = os.path.join(ctx.scratch, "c06_burst.ndjson")
+    rc, err, events = lc.run_live(ctx, ["live-c06", 16 if thorough else 8, 300 if thorough else 150, tr3, "burst"])
+    lc.crash_check(ctx, rc, err, "live-c06-burst")
+    lc.trace_conn(ctx, lc.split_conns(events), "c06burst")
+    # numbering across the 16-bit wrap (sampled frames, light trace specification)
+    from checks.c01 import trace_validate
+    wr = os.path.join(ctx.scratch, "c06_serials.ndjson")
+    r = ctx.vh(["live-c06wrap", wr], timeout=600)
+    lc.crash_check(ctx, r.returncode, r.stderr, "live-c06wrap")
+    wev = vlib.read_nd(wr, quoted=False)
+    trace_validate(ctx, "Trace_Serials", wr, wev, "serial-wrap-frames-validated-by-Trace_Serials",
+                   lambda inv, e: "%s i=%s" % (inv, "wrap" if e.get("i", 0) > 65000 else "early"))
     if thorough:
         tr2 = os.path.join(ctx.scratch, "c06_wrap.ndjson")
         rc, err, events = lc.run_live(ctx, ["live-c06", 1, 10, tr2, "wrap"], timeout=1500)
